@@ -15,7 +15,7 @@ if [ ! -d "$B/repo" ]; then
   git -C /repo worktree add --detach -f "$B/repo" HEAD >/dev/null 2>&1 || { echo "worktree failed"; exit 2; }
 fi
 git -C "$B/repo" checkout -q --detach "$(git -C /repo rev-parse HEAD)" && git -C "$B/repo" checkout -q -- . && git -C "$B/repo" clean -fdq
-rsync -a --delete --exclude target --exclude target-real --exclude build.log --exclude build-real.log /verif/sim/ "$B/verif/sim/"
+rsync -a --delete --exclude target --exclude target-real --exclude build.log --exclude build-real.log "${ISO_SRC:-/verif/sim}/" "$B/verif/sim/"
 cp /verif/check /verif/known_findings.json "$B/verif/"
 sed -i "s|path = \"/repo/|path = \"$B/repo/|" "$B/verif/sim/Cargo.toml"
 [ -d "$B/verif/sim/target" ] || cp -r /verif/sim/target "$B/verif/sim/target"
